@@ -330,7 +330,9 @@ async def _run(case: dict) -> dict:
 
 def run_case(case: dict) -> dict:
     """case = {shape: {...}, plan: [...], max_retries, manager, root, timeout}"""
+    import streamflow.log_handler  # noqa: F401  (sets the level on import)
     logging.getLogger("streamflow").setLevel(logging.CRITICAL)
+    logging.disable(logging.CRITICAL)
     _reset(case.get("plan", []))
     root = case.get("root") or tempfile.mkdtemp(prefix="sfv-recov-")
     case = dict(case, root=root)
